@@ -123,7 +123,7 @@ def edit_torrent(metafile: str, args: dict) -> dict:
     if "source" in args:
         _assign(info, "source", args["source"])
 
-    if "private" in args:
+    if args.get("private"):
         _assign(info, "private", 1)
 
     if "announce" in args:
